@@ -766,7 +766,7 @@ def replay(g, o, assigns, path):
 
 MANIFEST = {
     "category": "proof",
-    "text": 'Unbounded proof (any n <= 4096) on the extracted control skeletons: TridiagEigen::compute returns normally only with every sub-diagonal entry exactly zero (or the zero-matrix early exit) and throws runtime_error at the iteration cap; UpperHessenbergSchur::compute returns normally only with the active window empty and throws at its cap, calling its Francis-step helpers within their index preconditions; UpperHessenbergEigen emits each eigenvalue either with an exactly zero imaginary part or as one of two adjacent bit-exact conjugates, non-negative imaginary part first, also after the final scaling. Backward stability is numerical and NOT decided. Also proved: the index contracts of all five Francis-step helpers incl. perform_francis_qr_step (unbounded), the Householder kernels (right / SIMD-peeled: memory safety and exactly-once row coverage for every nrow, stride and packet width 1..16, unbounded; left: bounded at concrete stride), division of the input by max|H_ij| only when positive (F12), maxCoeff() only on non-empty diagonals (F13), identity initialisation of the eigenvector accumulator on every exit; one WEAK obligation (normalisation by max|T_ij|) counts only when a native replay reproduces it. Since the second session: upper_hessenberg_l1_norm covers the whole Hessenberg part exactly once (it decides the zero-matrix exit), and the eigenvector back substitution of UpperHessenbergEigen (doComputeEigenvectors) is index-safe and terminating for every n and every eigenvalue pattern, with the same coverage fact for its scale.',
+    "text": 'Unbounded proof (any n <= 4096) on the extracted control skeletons: TridiagEigen::compute returns normally only with every sub-diagonal entry exactly zero (or the zero-matrix early exit) and throws runtime_error at the iteration cap; UpperHessenbergSchur::compute returns normally only with the active window empty and throws at its cap, calling its Francis-step helpers within their index preconditions; UpperHessenbergEigen emits each eigenvalue either with an exactly zero imaginary part or as one of two adjacent bit-exact conjugates, non-negative imaginary part first, also after the final scaling. Backward stability is numerical and NOT decided. Also proved: the index contracts of all five Francis-step helpers incl. perform_francis_qr_step (unbounded), the Householder kernels (right / SIMD-peeled: memory safety and exactly-once row coverage for every nrow, stride and packet width 1..16, unbounded; left: bounded at concrete stride), division of the input by max|H_ij| only when positive (F12), maxCoeff() only on non-empty diagonals (F13), identity initialisation of the eigenvector accumulator on every exit; one WEAK obligation (normalisation by max|T_ij|) counts only when a native replay reproduces it. Since the second session: upper_hessenberg_l1_norm covers the whole Hessenberg part exactly once (it decides the zero-matrix exit), and the eigenvector back substitution of UpperHessenbergEigen (doComputeEigenvectors) is index-safe and terminating for every n and every eigenvalue pattern, with the same coverage fact for its scale. Third session: the computed-flag typestate of the decomposition classes used by the solvers is under contract (guard.coverage.* / guard.*: every public function that touches a result member starts with the m_computed guard, and the extracted guard throws std::logic_error exactly on an uncomputed object).',
     "note": "helper kernels stubbed by frame/index contracts (bounded checks of their bodies listed separately); IEEE sign symmetry of * proved as a separate lemma and instantiated",
     "technique": "CBMC dfcc loop contracts with Skolem indices and uninterpreted matrix entries on mechanically extracted C (cadical, kissat, cvc5)",
 }
